@@ -1352,9 +1352,23 @@ func ruleRangeDetails(r *Run) {
 				}
 				if f != nil {
 					d = shortFuncName(f)
+					// by what the converter computes, whatever it is called: a byte size is read with
+					// humanize.ParseBytes, a duration with time.ParseDuration and turned into seconds
+					hasSeconds := false
+					for _, c := range callsIn(f) {
+						if callIs(c, "time", "(Duration).Seconds") {
+							hasSeconds = true
+						}
+					}
 					for _, c := range callsIn(f) {
 						if callIs(c, "strconv", "ParseFloat") {
 							return "ParseFloat"
+						}
+						if pk, nm := calleePkgName(c); strings.HasSuffix(pk, "go-humanize") && nm == "ParseBytes" {
+							return "convertBytes"
+						}
+						if callIs(c, "time", "ParseDuration") && hasSeconds {
+							return "convertDuration"
 						}
 					}
 				}
